@@ -188,7 +188,8 @@ class Check(core.PropertyCheck):
     SPEC_DIR = "Export"
     MODEL = "Export"
     MON = "Mon_Export"
-    REQUIRED_WITNESSES = ("curl", "httpie", "raw", "plain_ok", "ctl_body_ok", "several_headers", "refused") + \
+    REQUIRED_WITNESSES = ("curl", "httpie", "raw", "plain_ok", "ctl_body_ok", "several_headers", "refused",
+                          "raw_after_export", "command_after_export") + \
         (() if REPAIRED else ("printf_form",))
     REQUIRED_ACTIONS = ("Export", "ExportRaw")
     PROCS = 8
@@ -230,15 +231,16 @@ class Check(core.PropertyCheck):
         if tier == "quick":
             w = {(f, fld, 2 if fld in ("body", "hval", "path") else 1)
                  for f in ("curl", "httpie") for fld in self.FIELDS}
-            w |= {("raw", fld, 2 if fld == "body" else 1) for fld in ("method", "path", "hname", "hval", "body")}
+            w |= {("raw", fld, 2 if fld == "body" else 1) for fld in self.FIELDS}
             return w
         w = {(f, fld, 3 if (f == "curl" and fld in ("body", "hval", "path")) else 2)
              for f in ("curl", "httpie") for fld in self.FIELDS}
-        w |= {("raw", fld, 3 if fld == "body" else 2) for fld in ("method", "path", "hname", "hval", "body")}
+        w |= {("raw", fld, 3 if fld == "body" else 2) for fld in self.FIELDS}
         return w
 
     def model_constants(self, tier, work=None):
-        return {"Alphabet": frozenset(ALPHABET), "Work": frozenset(work or self._work(tier)), "Repaired": REPAIRED}
+        return {"Alphabet": frozenset(ALPHABET), "Work": frozenset(work or self._work(tier)), "Repaired": REPAIRED,
+                "MaxSeq": 2, "SeqLen": 1}
 
     def model_runs(self, ctx):
         small = ctx.model_check(self.MODEL, self.model_constants("quick"), dump=True, timeout=1200)
@@ -262,26 +264,33 @@ class Check(core.PropertyCheck):
         models[0].graph = None
         del g
         cap = 450 if ctx.quick else 9000
-        if len(behs) > cap:
-            ctx.rng.shuffle(behs)
-            behs = behs[:cap]
+        two = [b for b in behs if len(b) > 2]      # the same flow exported twice
+        one = [b for b in behs if len(b) == 2]
+        ctx.rng.shuffle(two)
+        ctx.rng.shuffle(one)
+        behs = two[: cap * 2 // 5] + one[: cap - min(len(two), cap * 2 // 5)]
         for b in behs:
-            if len(b) < 2:
-                continue
-            name, args, _st = b[1]
-            if name == "Export":
-                fmt, field, s = args
-            else:
-                fmt, (field, s) = "raw", args
-            yield self._scenario(fmt, field, s, rng.randrange(1 << 30), predicted=core.predicted_events(b))
+            seq, field, s = [], None, None
+            for name, args, _st in b[1:]:
+                if name == "Export":
+                    fmt, field, s = args
+                else:
+                    fmt, (field, s) = "raw", args
+                seq.append(fmt)
+            sc = self._scenario(seq[0], field, s, rng.randrange(1 << 30), predicted=core.predicted_events(b))
+            sc.data["seq"] = seq
+            yield sc
         # beyond the model: strings of length 3..6 over the alphabet in one field (no prediction)
         n_long = 80 if ctx.quick else 7000
         for _ in range(n_long):
             fmt = rng.choice(("curl", "curl", "httpie", "raw"))
             field = rng.choice(self.FIELDS[:6] if fmt != "raw" else ("method", "path", "hname", "hval", "body"))
             s = [rng.choice(ALPHABET) for _ in range(rng.randint(3, 6))]
-            yield core.Scenario({"fmt": fmt, "field": field, "classes": s, "seed": rng.randrange(1 << 30), "long": True},
-                                source="random")
+            seq = [fmt] + ([rng.choice(("curl", "httpie", "raw"))] if rng.random() < 0.3 else [])
+            if "raw" in seq and field not in ("method", "path", "hname", "hval", "body"):
+                seq = [x for x in seq if x != "raw"] or ["curl"]
+            yield core.Scenario({"fmt": seq[0], "seq": seq, "field": field, "classes": s, "seed": rng.randrange(1 << 30),
+                                 "long": True}, source="random")
         # the scenarios of findings_proposed/C48.md (one per known cause), so that every run exercises each of them
         for mixed, hs in (
                 ({"method": "POST", "body": "discount=100%\nnext=1"}, []),
@@ -295,6 +304,11 @@ class Check(core.PropertyCheck):
                 ({"method": "POST"}, [["@at", "v"]]),
                 ({"method": "GET", "body": "q=1"}, [])):
             yield core.Scenario({"fmt": "curl", "mixed": mixed, "headers": hs, "seed": 1}, source="suite")
+        # one flow exported several times (the UI's "copy as ..." menu used repeatedly), without and with a body
+        for seq in (["curl", "raw"], ["httpie", "raw"], ["raw", "curl", "raw"], ["curl", "httpie", "curl"], ["curl", "curl"]):
+            for mixed in ({"method": "POST"}, {"method": "GET"}, {"method": "PUT", "body": "k=v"}):
+                yield core.Scenario({"fmt": seq[0], "seq": seq, "mixed": mixed, "headers": [["x-a", "1"]], "seed": 2},
+                                    source="suite")
         # hand-made injection payloads in every field
         for i, pl in enumerate(PAYLOADS):
             for field in ("method", "host", "path", "hname", "hval", "body"):
@@ -321,7 +335,8 @@ class Check(core.PropertyCheck):
             if fmt == "raw" and rng.random() < 0.2:
                 hs.append(["transfer-encoding", "chunked"])
                 mixed["body"] = mixed.get("body", "") + conc(["a"] * rng.randint(1, 40), rng)
-            sc = {"fmt": fmt, "mixed": mixed, "headers": hs, "seed": rng.randrange(1 << 30),
+            seq = [fmt] + [rng.choice(("curl", "httpie", "raw")) for _ in range(rng.choice((0, 0, 1, 2)))]
+            sc = {"fmt": fmt, "seq": seq, "mixed": mixed, "headers": hs, "seed": rng.randrange(1 << 30),
                   "preserve_ip": rng.random() < 0.4, "http_get": rng.random() < 0.25}
             if rng.random() < 0.12:
                 sc["bodyhex"] = bytes(rng.choice([0xff, 0xfe, 0x80, 0xc3, 0x28, 0x41]) for _ in range(rng.randint(2, 8))).hex() + "ff"
@@ -349,7 +364,7 @@ class Check(core.PropertyCheck):
 
     def _request(self, sc):
         rng = random.Random(sc["seed"])
-        raw = sc["fmt"] == "raw"
+        raw = "raw" in (sc.get("seq") or [sc["fmt"]])
         f = dict(self.BASE)
         if "classes" in sc:
             field = sc["field"]
@@ -391,39 +406,47 @@ class Check(core.PropertyCheck):
 
         f, headers, body, text = self._request(sc)
         self._cls = list(sc.get("classes") or [])
-        fmt = sc["fmt"]
+        seq = list(sc.get("seq") or [sc["fmt"]])
         enc = lambda s: s.encode("utf-8", "surrogateescape")  # noqa: E731
         hdr_bytes = [(enc(n), enc(v)) for n, v in headers] + [(b"content-length", str(len(body)).encode())]
         req = http.Request(host=f["host"], port=8080, method=enc(f["method"]), scheme=b"http", authority=b"",
                            path=enc("/" + f["path"]), http_version=b"HTTP/1.1", headers=http.Headers(hdr_bytes),
                            content=body, trailers=None, timestamp_start=1.0, timestamp_end=2.0)
-        flow = tflow.tflow(req=req)
+        flow = tflow.tflow(req=req)  # ONE flow, exported len(seq) times
         flow.server_conn.peername = ("192.0.2.7", 8080)
-        self._n += 1
-        base = self._dir / "run" / f"{os.getpid()}-{self._n}"
-        cmdfile = Path(str(base) + ".vfcmd")
         field = sc.get("field", "mixed")
         field = "body" if field == "getbody" else field
-        try:
-            with taddons.context() as tctx:
-                e = export.Export()
-                tctx.configure(e, export_preserve_original_ip=bool(sc.get("preserve_ip")))
+        trace = []
+        with taddons.context() as tctx:
+            e = export.Export()
+            tctx.configure(e, export_preserve_original_ip=bool(sc.get("preserve_ip")))
+            for nth, fmt in enumerate(seq, 1):
+                self._n += 1
+                base = self._dir / "run" / f"{os.getpid()}-{self._n}"
+                cmdfile = Path(str(base) + ".vfcmd")
                 try:
-                    e.file("raw_request" if fmt == "raw" else fmt, flow, str(cmdfile))
-                except (exceptions.CommandError, ValueError, AssertionError, UnicodeError) as ex:
-                    return [{"k": "refused", "fmt": fmt, "exc": type(ex).__name__}]
-            if not cmdfile.exists():
-                return [{"k": "refused", "fmt": fmt, "exc": "nofile"}]
-            data = cmdfile.read_bytes()
-            if fmt == "raw":
-                return [self._raw_event(data, f, hdr_bytes, body, field)]
-            return [self._run_event(fmt, data, cmdfile, base, f, hdr_bytes, body, text, field)]
-        finally:
-            for suf in (".vfcmd", ".argv", ".stdin", ".log"):
-                try:
-                    os.unlink(str(base) + suf)
-                except OSError:
-                    pass
+                    try:
+                        e.file("raw_request" if fmt == "raw" else fmt, flow, str(cmdfile))
+                    except Exception as ex:  # the exporter's answer (CommandError) or a crash inside it: an observation
+                        trace.append({"k": "refused", "fmt": fmt, "nth": nth, "exc": type(ex).__name__})
+                        continue
+                    if not cmdfile.exists():
+                        trace.append({"k": "refused", "fmt": fmt, "nth": nth, "exc": "nofile"})
+                        continue
+                    data = cmdfile.read_bytes()
+                    if fmt == "raw":
+                        ev = self._raw_event(data, f, hdr_bytes, body, field)
+                    else:
+                        ev = self._run_event(fmt, data, cmdfile, base, f, hdr_bytes, body, text, field)
+                    ev["nth"] = nth
+                    trace.append(ev)
+                finally:
+                    for suf in (".vfcmd", ".argv", ".stdin", ".log"):
+                        try:
+                            os.unlink(str(base) + suf)
+                        except OSError:
+                            pass
+        return trace
 
     # -- raw --
     def _raw_event(self, data, f, hdr_bytes, body, field):
